@@ -210,3 +210,20 @@ reg("C42", "seq", "All add/get/get_optional histories on a real DependencyManage
     "(5), against a dict-of-lists + lock-set model; de-duplication on the manager's full contents.",
     "explicit-state BFS over operation histories of the real object against a reference model",
     note="Bounded depth and two dependency values; histories are replayed on fresh objects; exception types are not compared.")
+
+ENGINES.append({"name": "enum", "path": "/verif/vlib/enumr.py",
+                "kind_free_text": "exhaustive case enumeration for pure-Python helpers: every case of a bounded universe runs the real "
+                "library code and is compared with a reference definition (the degenerate explorer: one state, one transition per "
+                "case); cases that produce Amaranth statements/values are additionally executed by pysim on every input valuation",
+                "serves_properties": []})
+reg("C40", "enum", "Every ordered pair of ~60 (quick) structured values (Views over struct/array/union layouts of depth <= 2, dict/list "
+    "forms incl. dicts of Views and integer constants, bare signals) x 14 field selections: assign() raises exactly when the reference "
+    "says so; otherwise its statements are executed by pysim on every right-hand valuation and every left-hand bit is compared "
+    "(selected bits copied, all others keep their reset value).",
+    "bounded-exhaustive enumeration of argument pairs and selections; accepted cases decided by exhaustive input enumeration on pysim",
+    note="Trusts pysim and the reference selection semantics transcribed from assign()'s docstring; leaf widths 1-2, depth <= 2.")
+reg("C41", "enum", "transpose/transpose_layout on every two-level layout with 1-3 x 1-3 keys of at most 11 (14) bits: every bit pattern as "
+    "Const and every View valuation on pysim (element swap, involution); 11 invalid layouts must raise; signed_to_int/int_to_signed on "
+    "every value for xlen 1-8 (10); align_* for 0-64 (300) x powers 0-5 (8); make_hashable on every pair of ~750 nested values.",
+    "bounded-exhaustive enumeration of layouts, bit patterns and integers against reference definitions",
+    note="Bounded sizes; View transposition trusts pysim.")
